@@ -716,4 +716,50 @@ func c20Pages(p *core.Prog, r *core.Run, gzd *ssa.Function) {
 	}
 	r.Check("C20.PAGES", "page-info:json-names", okTags, p.InstrPos(page), "the paging quantities are decoded from the API's own field names: %v (want %v)", gotTag, wantTag)
 	r.Check("C20.PAGES", "page-loop:exits", nExit >= 1, p.InstrPos(page), "%d non-error exits of the page loop", nExit)
+	c20FreshDecodeTargets(p, r)
+}
+
+// c20FreshDecodeTargets: encoding/json leaves in place what the input does
+// not mention (and reuses the elements of a slice it decodes into), so a
+// response decoded into a variable that still holds an earlier response takes
+// over that response's values. Every decode target of the package that is
+// filled inside a loop is a variable created inside that same loop, i.e. zero
+// for each response.
+func c20FreshDecodeTargets(p *core.Prog, r *core.Run) {
+	n := 0
+	for _, s := range callSites(p, p.PkgFuncs(Publish), `encoding/json\.Unmarshal|\(\*encoding/json\.Decoder\)\.Decode`) {
+		args := s.Instr.Common().Args
+		tgt := args[len(args)-1]
+		for {
+			if mi, ok := tgt.(*ssa.MakeInterface); ok {
+				tgt = mi.X
+				continue
+			}
+			if ct, ok := tgt.(*ssa.ChangeType); ok {
+				tgt = ct.X
+				continue
+			}
+			break
+		}
+		n++
+		fn := s.Instr.Parent()
+		var hdr *ssa.BasicBlock
+		loops := core.Loops(fn)
+		for h, body := range loops {
+			if body[s.Instr.Block()] && (hdr == nil || loops[hdr][h]) {
+				hdr = h
+			}
+		}
+		key := fmt.Sprintf("decode-target#%d@%s", n, p.FuncName(fn))
+		if hdr == nil {
+			// decoded once per call: fresh when it is a local of this call
+			_, isAlloc := tgt.(*ssa.Alloc)
+			r.Check("C20.PAGES", key, isAlloc || p.X(tgt).Op == "new", p.InstrPos(s.Instr), "the response is decoded once, into a variable of this call: %s", short(p.X(tgt)))
+			continue
+		}
+		al, isAlloc := tgt.(*ssa.Alloc)
+		fresh := isAlloc && loops[hdr][al.Block()]
+		r.Check("C20.PAGES", key, fresh, p.InstrPos(s.Instr), "inside a loop, each response is decoded into a variable created for it in that loop (not one that still holds the previous response): %s", short(p.X(tgt)))
+	}
+	r.Check("C20.PAGES", "decode-targets", n >= 2, "-", "json decode calls examined in the package: %d", n)
 }
